@@ -6,8 +6,11 @@ package main
 import (
 	"context"
 	"fmt"
+	"runtime"
+	"sort"
 	"strconv"
 	"strings"
+	"time"
 
 	"github.com/feichai0017/NoKV/utils"
 
@@ -87,6 +90,22 @@ func (e *wmEngine) Gen(r *hlib.Rand, tier string) []string {
 		last = far
 		ops = append(ops, fmt.Sprintf("wm.wait %d", far))
 	}
+	// several WaitForMark calls on ONE pending index: some cancelled (at once or after parking), the
+	// others must stay parked until the index is done
+	waiterCase := r.Chance(30)
+	nextW := 0
+	waitOps := func(idx uint64) {
+		k := 2 + r.Intn(2)
+		first := nextW
+		for j := 0; j < k; j++ {
+			ops = append(ops, fmt.Sprintf("wm.waitstart %d %d", nextW, idx))
+			nextW++
+		}
+		ops = append(ops, "wm.waiters", fmt.Sprintf("wm.waitcancel %d", first+r.Intn(k)), "wm.waiters")
+		if r.Chance(40) {
+			ops = append(ops, fmt.Sprintf("wm.waitcancel %d", first+r.Intn(k)), "wm.waiters")
+		}
+	}
 	beginIdx := func() uint64 {
 		x := r.Intn(100)
 		switch {
@@ -154,6 +173,9 @@ func (e *wmEngine) Gen(r *hlib.Rand, tier string) []string {
 			ops = append(ops, fmt.Sprintf("wm.begin %d", idx))
 			open = append(open, idx)
 			held[idx] = true
+			if waiterCase && nextW < 9 && r.Chance(50) {
+				waitOps(idx)
+			}
 			if idx > last {
 				last = idx
 			}
@@ -220,6 +242,13 @@ func (e *wmEngine) Gen(r *hlib.Rand, tier string) []string {
 		}
 	}
 	ops = append(ops, fmt.Sprintf("wm.wait %d", last))
+	if nextW > 0 {
+		// finish what is still open, then every waiter that was not cancelled has returned nil
+		for _, idx := range open {
+			ops = append(ops, fmt.Sprintf("wm.done %d", idx))
+		}
+		ops = append(ops, "wm.waiters")
+	}
 	return ops
 }
 
@@ -271,6 +300,7 @@ func (e *wmEngine) Exec(ops []string) []string {
 		first bool
 	}
 	pending := map[int]*pend{}
+	waiters := map[int]*wmWaiter{}
 	reply := func(what string) string {
 		du := w.DoneUntil()
 		flag := "ok"
@@ -282,6 +312,11 @@ func (e *wmEngine) Exec(ops []string) []string {
 		return fmt.Sprintf("%s:%s du=%d li=%d", flag, what, du, w.LastIndex())
 	}
 	out := make([]string, len(ops))
+	defer func() {
+		for _, x := range waiters {
+			x.cancel()
+		}
+	}()
 	for i, op := range ops {
 		f := strings.Fields(op)
 		switch {
@@ -291,6 +326,10 @@ func (e *wmEngine) Exec(ops []string) []string {
 			w.Init(nil)
 			nBegun, nDone = map[uint64]int{}, map[uint64]int{}
 			pending = map[int]*pend{}
+			for _, x := range waiters {
+				x.cancel()
+			}
+			waiters = map[int]*wmWaiter{}
 			out[i] = "ok"
 		case (f[0] == "wm.begin" || f[0] == "wm.done") && len(f) == 2:
 			idx, err := strconv.ParseUint(f[1], 10, 64)
@@ -343,6 +382,76 @@ func (e *wmEngine) Exec(ops []string) []string {
 			}
 			wholeCall.Store(false)
 			out[i] = reply("done")
+		case f[0] == "wm.waitstart" && len(f) == 3:
+			wid, err1 := strconv.Atoi(f[1])
+			idx, err2 := strconv.ParseUint(f[2], 10, 64)
+			if _, dup := waiters[wid]; dup || err1 != nil || err2 != nil {
+				out[i] = "bad-op"
+				continue
+			}
+			ctx, cancel := context.WithCancel(context.Background())
+			x := &wmWaiter{idx: idx, cancel: cancel, res: make(chan error, 1)}
+			waiters[wid] = x
+			ready := make(chan uint64)
+			wmk := w
+			go func() {
+				ready <- goid()
+				x.res <- wmk.WaitForMark(ctx, idx)
+			}()
+			x.gid = <-ready
+			x.settle(w)
+			if x.state == 1 {
+				out[i] = reply("nil")
+			} else {
+				out[i] = reply("parked")
+			}
+		case f[0] == "wm.waitcancel" && len(f) == 2:
+			wid, _ := strconv.Atoi(f[1])
+			x := waiters[wid]
+			if x == nil {
+				out[i] = "bad-op"
+				continue
+			}
+			if x.state != 0 {
+				out[i] = reply("notparked")
+				continue
+			}
+			x.cancel()
+			select {
+			case err := <-x.res:
+				if err != nil {
+					x.state = 2
+					out[i] = reply("ctxerr")
+				} else {
+					x.state = 1
+					out[i] = reply("nil-after-cancel")
+				}
+			case <-time.After(stuckAfter):
+				panic("verif: cancelled waiter did not return (stuck)")
+			}
+		case f[0] == "wm.waiters" && len(f) == 1:
+			var ids []int
+			for id := range waiters {
+				ids = append(ids, id)
+			}
+			sort.Ints(ids)
+			lists := [3][]string{}
+			flag := "ok"
+			for _, id := range ids {
+				x := waiters[id]
+				x.settle(w)
+				if x.early {
+					flag = "early" // returned nil before the mark reached its index
+				}
+				lists[x.state] = append(lists[x.state], strconv.Itoa(id))
+			}
+			str := func(l []string) string {
+				if len(l) == 0 {
+					return "-"
+				}
+				return strings.Join(l, ",")
+			}
+			out[i] = fmt.Sprintf("%s:parked=%s nil=%s err=%s", flag, str(lists[0]), str(lists[1]), str(lists[2]))
 		case f[0] == "wm.wait" && len(f) == 2:
 			idx, _ := strconv.ParseUint(f[1], 10, 64)
 			ctx, cancel := context.WithCancel(context.Background())
@@ -408,4 +517,73 @@ func (e *wmEngine) Exec(ops []string) []string {
 		}
 	}
 	return out
+}
+
+// goroutineState returns the wait state of goroutine g ("select", "running", ...; "" = gone).
+func goroutineState(g uint64) string {
+	buf := make([]byte, 1<<20)
+	for {
+		n := runtime.Stack(buf, true)
+		if n < len(buf) {
+			buf = buf[:n]
+			break
+		}
+		buf = make([]byte, 2*len(buf))
+	}
+	prefix := fmt.Sprintf("goroutine %d [", g)
+	for _, block := range strings.Split(string(buf), "\n\n") {
+		if strings.HasPrefix(block, prefix) {
+			st := block[len(prefix):]
+			if i := strings.IndexAny(st, ",]"); i >= 0 {
+				st = st[:i]
+			}
+			return st
+		}
+	}
+	return ""
+}
+
+type wmWaiter struct {
+	idx    uint64
+	gid    uint64
+	cancel context.CancelFunc
+	res    chan error
+	state  int // 0 parked, 1 nil, 2 ctx error
+	early  bool
+}
+
+// settle waits until the waiter has returned or is parked in WaitForMark's select.
+func (x *wmWaiter) settle(w *utils.WaterMark) {
+	deadline := time.Now().Add(stuckAfter)
+	for x.state == 0 {
+		select {
+		case err := <-x.res:
+			if err == nil {
+				x.state = 1
+				x.early = w.DoneUntil() < x.idx
+			} else {
+				x.state = 2
+			}
+			return
+		default:
+		}
+		if goroutineState(x.gid) == "select" {
+			// once more: it may have been readied between the two observations
+			select {
+			case err := <-x.res:
+				if err == nil {
+					x.state = 1
+					x.early = w.DoneUntil() < x.idx
+				} else {
+					x.state = 2
+				}
+			default:
+			}
+			return
+		}
+		if time.Now().After(deadline) {
+			panic("verif: waiter neither returned nor parked (stuck)")
+		}
+		time.Sleep(50 * time.Microsecond)
+	}
 }
